@@ -17,7 +17,7 @@ RULE = ('Random schemas (nested messages, fixed and variable arrays, arrays of m
         'contains_index, integer bounds of UINT8..INT64, constructor rejections. evaluations = schema checks + helper '
         'comparisons; non-trivial = a fault was injected or a nested schema was navigated; distinct = (fault kind, '
         'position kind, event position, schema shape).')
-RULE_ADDED = ' Since the seeding rounds: weak first occurrence, two valid schemas in turn, zero lengths, float-spelled indices, fault number-as-compound, shared message tokens, small-scope enumeration of type-token declarations, nested message types that declare constants only.'
+RULE_ADDED = ' Since the seeding rounds: weak first occurrence, two valid schemas in turn, zero lengths, float-spelled indices, fault number-as-compound, shared message tokens, small-scope enumeration of type-token declarations, nested message types that declare constants only; faulty index that is not the last step of its path (arrays of messages: qz[i].f, qz[i].arr[0], qz[1].arr[i]).'
 ASSUMPTIONS = ['on failure any of TypeError/IndexError/HplSanityError/KeyError counts as "an error"; its message must '
                'mention the offending field name or index', 'unknown topics, missing alias entries and non-integer '
                'literal indices are caller errors and not judged']
@@ -50,6 +50,8 @@ def extra_fields(rng, sch, n):
     f[f'qy{n}'] = ('arr', gen.NUM, -1)
     # a nested message type that declares constants only (no fields at all), and beneath it nothing else
     f[f'qk{n}'] = ('msg', {}, {f'KON{n}': (gen.NUM, rng.choice((0, 1, 7)))})
+    # an array of messages: an index here is followed by a further step (field, or field and index)
+    f[f'qz{n}'] = ('arr', ('msg', {f'zin{n}': gen.NUM, f'zar{n}': ('arr', gen.NUM, -1)}, {}), -1)
     f[f'qp{n}'] = gen.NUM  # two fields only ever compared with each other: any primitive declaration fits
     f[f'qq{n}'] = gen.NUM
     return ('msg', f, dict(sch[2]))
@@ -102,6 +104,12 @@ def place(rng, position, ref, root, n, other_array=None):
         return ('bin', gen.pick(rng, ('>', '<=', '=')), ref, A.num('0'))
     if position == 'index':
         arr = other_array if (other_array is not None and rng.random() < 0.6) else F(f'qy{n}')
+        if rng.random() < 0.35:
+            # the index under test is not the last step of its path
+            step = ('index', F(f'qz{n}'), ref)
+            return ('bin', '>', gen.pick(rng, (('field', step, f'zin{n}'),
+                                               ('index', ('field', step, f'zar{n}'), A.num('0')),
+                                               ('index', ('field', ('index', F(f'qz{n}'), A.num('1')), f'zar{n}'), ref))), A.num('0'))
         return ('bin', '>', ('index', arr, ref), A.num('0'))
     if position == 'range-bound':
         rg = ('range', A.num('0'), ref, False, rng.random() < 0.5) if rng.random() < 0.5 else ('range', ref, A.num('9'), False, False)
